@@ -216,7 +216,8 @@ def sparse_cases(rng, n_per_op):
             m = rnd_mat(rng, nr, nc, zero_p=.35)
             for be in (0, 1):
                 st_rng = random.Random(rng.getrandbits(32))
-                style = None if op in (0, 1, 12, 13, 14, 15, 20, 21) else 'plain'
+                style = None if op in (12, 13, 14, 15, 20, 21) else 'plain'
+                if op in (0, 1): style = ['plain', 'dups', 'zeros', 'shuffled'][it % 4]
                 s0, style = sparse_sx(st_rng, m, style)
                 if op == 0: add(be, op, m, [], 'M', style=style, s0=s0)
                 elif op == 1: add(be, op, m, [st_rng.randrange(nr), st_rng.randrange(nc)], 'Q', style=style, s0=s0)
